@@ -38,7 +38,7 @@ func init() {
 		"add": 6, "remove": 5, "addmany": 10, "addrange": 8, "removerange": 6, "flip": 5, "clear": 1,
 		"runopt": 4, "clone": 4, "detach": 1, "setcow": 3,
 		"binop": 6, "ibinop": 6, "card": 2, "flipstatic": 2, "addoffset": 2, "agg": 3, "andany": 1, "gc": 1,
-		"thresh": 4, "pair": 3, "cowclone": 2, "parlist": 0, "erode": 1,
+		"thresh": 4, "pair": 3, "cowclone": 2, "parlist": 0, "erode": 1, "zcpair": 0,
 	}
 	with := func(over map[string]int) *profile {
 		m := map[string]int{}
@@ -90,11 +90,13 @@ func init() {
 	profiles["C10"] = with(map[string]int{"trunc": 10, "corrupt": 45, "rfault": 4, "mustread": 5, "rt": 3, "runopt": 8, "unmap": 1})
 	profiles["C13"] = with(map[string]int{"freeze": 30, "runopt": 8, "unmap": 3, "gc": 6})
 	profiles["C08"] = with(map[string]int{"rt": 14, "freeze": 10, "unmap": 8, "detach": 6, "gc": 5, "dense": 3, "clone": 8, "binop": 10, "ibinop": 10, "agg": 5, "setcow": 1,
+		"zcpair": 8, "pair": 2, "thresh": 2,
 		"rt64": 4, "addmany64": 3, "add64": 3, "remove64": 2, "addrange64": 2, "removerange64": 2, "flip64": 1, "binop64": 4, "maint64": 2})
 	profiles["C01"] = with(map[string]int{"binop": 20, "ibinop": 20, "card": 8, "runopt": 6, "pair": 16})
 	profiles["C02"] = with(map[string]int{"add": 12, "remove": 10, "addmany": 14, "addrange": 14, "removerange": 12, "flip": 10, "binop": 2, "ibinop": 2, "agg": 1, "thresh": 10, "clone": 6, "setcow": 5})
-	profiles["C07"] = with(map[string]int{"parlist": 3, "cowclone": 8, "clone": 8, "setcow": 8, "binop": 10, "ibinop": 10, "agg": 10, "flipstatic": 4, "addoffset": 4, "andany": 3})
-	profiles["C09"] = with(map[string]int{"erode": 4, "thresh": 8, "runopt": 8, "agg": 8, "andany": 5, "addoffset": 6, "flipstatic": 5, "removerange": 10, "flip": 8})
+	profiles["C07"] = with(map[string]int{"add64": 4, "remove64": 3, "addmany64": 5, "addrange64": 4, "removerange64": 3, "flip64": 2, "maint64": 10, "binop64": 14, "flipstatic64": 3, "agg64": 5, "from32": 1,
+		"parlist": 3, "cowclone": 8, "clone": 8, "setcow": 8, "binop": 10, "ibinop": 10, "agg": 10, "flipstatic": 4, "addoffset": 4, "andany": 3})
+	profiles["C09"] = with(map[string]int{"erode": 4, "thresh": 8, "pair": 12, "runopt": 8, "agg": 8, "andany": 5, "addoffset": 6, "flipstatic": 5, "removerange": 10, "flip": 8})
 	profiles["C14"] = profiles["C09"]
 	profiles["C11"] = with(map[string]int{"agg": 25, "andany": 8, "runopt": 5, "parlist": 6, "cowclone": 4})
 	profiles["C16"] = with(map[string]int{"flipstatic": 15, "addoffset": 20, "runopt": 6, "dense": 14, "unmap": 2})
